@@ -311,3 +311,25 @@ func H_staleTranslation(kind, tpl int) {
 	}
 	// (reaching this line is the verdict: no panic escaped, no unbounded loop)
 }
+
+// H_afterNotFound (C06): a render of a template the bundle lacks returns ErrTemplateNotFound (or an
+// error from a {call} to a missing template), and renders after it still return (kind selects the
+// first step: missing entry template, missing callee through a dynamic bundle, plain render).
+func H_afterNotFound(kind int) {
+	tofu, cerr := verifCompileNoCheck("{namespace a}\n/** @param x */\n{template .t}\n[{$x}]{call .u data=\"all\"/}\n{/template}\n/** @param x */\n{template .u}\n({$x})\n{/template}\n/** */\n{template .c}\n{call a.missing /}\n{/template}\n")
+	verifAssert(cerr == nil, "harness: bundle does not compile")
+	m := data.Map{"x": data.String(verifString(1))}
+	switch kind {
+	case 0:
+		_, err := verifRender(tofu, "a.nope", m)
+		verifAssert(err != nil, "C06: rendering a template that does not exist returned no error")
+	case 1:
+		_, err := verifRender(tofu, "a.c", m)
+		verifAssert(err != nil, "C06: calling a template that does not exist returned no error")
+	}
+	for i := 0; i < 2; i++ {
+		out, err := verifRender(tofu, "a.t", m)
+		verifObserve("out", out)
+		verifAssert(err == nil, "C06: a render after a failed lookup failed")
+	}
+}
